@@ -600,6 +600,9 @@ func (p *Program) runPath(h *Harness, solver *Solver, item workItem, trace bool)
 		strCache: map[string]*Object{}, trace: trace, deadline: p.pathDeadline(),
 	}
 	ex.res = &PathResult{reach: map[string]bool{}}
+	if h.Concrete != nil {
+		ex.concrete, ex.concVals = true, h.Concrete
+	}
 	if item.model != nil {
 		ex.model, ex.modelOK = item.model, true
 	}
@@ -647,7 +650,7 @@ func (ex *Exec) finishPath() {
 		if !ex.expectPanic {
 			needModel = true
 		}
-	case stUnsafe, stDeadlock:
+	case stUnsafe, stDeadlock, stOutOfModel:
 		needModel = true
 	case stOK:
 		if len(ex.inputs) > 0 && ex.prog.wantSample() {
@@ -685,6 +688,9 @@ func (ex *Exec) finishPath() {
 		res.violations = append(res.violations, Violation{Kind: "unsafe", Label: "unsafe", Msg: res.msg, Inputs: ins, Prefix: ex.journal[:ex.jpos]})
 	case stDeadlock:
 		res.violations = append(res.violations, Violation{Kind: "deadlock", Label: "deadlock", Msg: res.msg, Inputs: ins, Prefix: ex.journal[:ex.jpos]})
+	case stOutOfModel:
+		// not a verdict: reported so that the input reaching unmodelled code can be inspected
+		res.violations = append(res.violations, Violation{Kind: "out-of-model", Label: "out-of-model", Msg: res.msg, Inputs: ins, Prefix: ex.journal[:ex.jpos]})
 	case stOK:
 		res.sample = ins
 	}
